@@ -43,6 +43,9 @@ struct Cfg {
     /// (step, count): `count` peers register back to back between two polls, some of the publishers among them
     /// already have an item ready, and the router is then left alone until it is quiescent
     storm: Option<(usize, usize)>,
+    /// (step, count): `count` publisher streams fail between two polls while a few healthy publishers have an item
+    /// ready; the router is then left alone until quiescent
+    err_storm: Option<(usize, usize)>,
 }
 
 fn payload(peer: usize, seq: u32, rng: &mut Rng) -> Bytes {
@@ -105,6 +108,7 @@ fn gen_cfg(rng: &mut Rng, family: &str) -> Cfg {
         faults: family == "c08" || (family == "c16" && rng.pct(30)),
         sink_profiles,
         prefill: if family == "burst" && rng.pct(60) { rng.usize(n_pubs + n_subs + 1) } else { 0 },
+        err_storm: if family == "burst" && rng.pct(40) { Some((rng.usize(steps), rng.range(1, 40) as usize)) } else { None },
         storm: if family == "burst" && rng.pct(70) {
             let total = n_pubs + n_subs;
             let count = if rng.pct(50) { rng.range(1, total as u64) as usize } else { total - rng.usize(total.min(6)) };
@@ -400,7 +404,7 @@ impl Sim {
                 if !st.queue.is_empty() {
                     let never = st.first_touch.is_none();
                     self.findings.push(Finding {
-                        class: if never { "abandoned" } else { "sleep" },
+                        class: if never { "abandoned" } else if at.contains("error storm") { "starved-after-failure" } else { "sleep" },
                         sig: format!(
                             "pubsub/sleep/unread-input{}",
                             if never { "/registration-unnoticed" } else { "" }
@@ -711,6 +715,44 @@ pub fn run(seed: u64, family: &str, keep_dump: bool) -> RunResult {
             sim.close();
             continue;
         }
+        if let Some((at, count)) = cfg.err_storm {
+            if at == step && !sim.closed {
+                let mut live: Vec<usize> = {
+                    let w = lock(&sh);
+                    sim.pubs.iter().copied().filter(|p| w.peers[*p].reg_sent.is_some() && !w.peers[*p].stream.as_ref().unwrap().ended).collect()
+                };
+                lock(&sh).act(format!("error storm: up to {} publisher streams fail back to back", count));
+                let healthy = sim.rng.range(1, 8) as usize;
+                let mut failed = 0;
+                while failed < count && live.len() > healthy {
+                    let k = sim.rng.usize(live.len());
+                    let p = live.swap_remove(k);
+                    let mut w = lock(&sh);
+                    let label = w.peers[p].label.clone();
+                    w.act(format!("{} stream fails (error, then end)", label));
+                    let mut wks = vec![];
+                    for _ in 0..(if sim.rng.pct(30) { sim.rng.range(2, 9) } else { 1 }) {
+                        wks.push(w.enqueue(p, QItem::Err));
+                    }
+                    wks.push(w.end_stream(p));
+                    drop(w);
+                    for wk in wks {
+                        sim.fire(wk);
+                    }
+                    failed += 1;
+                }
+                for _ in 0..healthy.min(live.len()) {
+                    let k = sim.rng.usize(live.len());
+                    let p = live.swap_remove(k);
+                    sim.produce(p, "msg");
+                }
+                if sim.settle("after error storm") && sim.alive {
+                    sim.quiescent_checks("quiescence after an error storm", false);
+                }
+                sim.end_settle();
+                continue;
+            }
+        }
         if let Some((at, count)) = cfg.storm {
             if at == step && !sim.closed {
                 let mut fresh: Vec<usize> = {
@@ -923,7 +965,7 @@ pub fn run(seed: u64, family: &str, keep_dump: bool) -> RunResult {
         "engine": "routersim/pubsub", "family": family, "seed": seed,
         "n_pubs": cfg.n_pubs, "n_subs": cfg.n_subs, "items": cfg.items, "steps": cfg.steps,
         "spurious_polls": cfg.spurious, "close_at": cfg.close_at, "close_at_end": cfg.close_at_end,
-        "faults": cfg.faults, "sink_profiles": cfg.sink_profiles, "registrations_queued_before_first_poll": cfg.prefill, "registration_storm_step_count": cfg.storm,
+        "faults": cfg.faults, "sink_profiles": cfg.sink_profiles, "registrations_queued_before_first_poll": cfg.prefill, "registration_storm_step_count": cfg.storm, "error_storm_step_count": cfg.err_storm,
     });
     let dump = if keep_dump || !sim.findings.is_empty() {
         Some(dump_world(&w, 400))
